@@ -197,6 +197,9 @@ def gen_filler(g, cfg, sigs, state):
     if kind == "entropy":
         return {"op": "entropy.draw", "n": g.randint(1, 4)}
     if kind == "gc":
+        if g.random() < 0.3:
+            from .world import IMPORTABLE
+            return {"op": "py.import", "module": g.choice(IMPORTABLE)}
         return {"op": "gc"}
     if kind == "caller.scribble_output":
         # the caller works in place on something a seeded call handed out earlier
@@ -277,6 +280,8 @@ def generate(run_seed, deep=False):
             seed = "default"         # random_state omitted: the documented default (42) is a seed like any other
         mid = ("m%d" % k) if (api in SAMPLERS and g.random() < 0.6) else None
         rec = gen_call(g, cfg, api, seed, mid)
+        if mid and g.random() < 0.1:
+            rec["m"]["born"] = g.choice(["deepcopy", "pickle"])     # the long-lived model is a copy of the constructed one
         rec["sig"] = k
         sigs.append(rec)
     remaining = {k: sc.randint(2, 6) if not cfg["deep"] else sc.randint(3, 9) for k in range(len(sigs))}
@@ -352,7 +357,11 @@ def generate(run_seed, deep=False):
                 ops.append(between)
             else:
                 ops.append(rec)
-            ops.append(copy.deepcopy(rec))
+            rec = copy.deepcopy(rec)
+            if cfg.get("bursts") and rec.get("nd") and sc.random() < 0.5 and not cfg.get("huge") and \
+                    rec.get("args", {}).get("n", 100) <= 40:
+                rec["nd_burst"] = sc.choice([130, 520, 1030])     # a long unseeded session: no result may come back
+            ops.append(rec)
             for j in evaluated:
                 evaluated[j] = True
         else:
@@ -513,6 +522,17 @@ def execute(sempler, run_seed, ops, pristine_budget=4):
                                % (b + 2, rec["burst"]), "first": od, "later": outcome_digest(*o2), "seed": rec["seed"]})
                     break
             w.probes["burst.seeded_calls"] += 1
+        if op == "call" and rec.get("nd_burst") and rec.get("nd") and rec.get("seed") is None and out[0] == "ok":
+            seen = {od: 1}
+            for b in range(int(rec["nd_burst"]) - 1):
+                d2 = outcome_digest(*w.call(invoke(w, rec)))
+                if d2 in seen:
+                    w.violate("unseeded_degenerate", SITE[rec["api"]],
+                              {"how": "call %d of a session of %d identical unseeded calls returned exactly the result "
+                                      "of call %d" % (b + 2, rec["nd_burst"], seen[d2]), "digest": d2})
+                    break
+                seen[d2] = b + 2
+            w.probes["burst.unseeded_calls"] += 1
         if op == "call" and out[0] == "ok" and sigkey(rec) is not None:
             w.kept.append(out[1])
             del w.kept[:-6]
@@ -571,7 +591,7 @@ def fkind(ev):
         return "rng.stdlib"
     if op == "entropy.draw":
         return "entropy"
-    if op == "gc":
+    if op in ("gc", "py.import"):
         return "gc"
     if op == "out.scribble":
         return "caller.scribble_output"
